@@ -5,13 +5,14 @@ set -u
 SCR=$(mktemp -d /tmp/seedmatrix.XXXX); cp /verif/known_findings.json "$SCR/"
 W=$(mktemp -d /tmp/seedmw.XXXX); rmdir "$W"; git -C /repo worktree add -q --detach "$W" HEAD || exit 9
 trap 'git -C /repo worktree remove --force "$W" >/dev/null 2>&1; rm -rf "$SCR"' EXIT
-OUT=/verif/seeded/matrix.json; echo "{" > "$OUT"; first=1
-for d in /verif/seeded/*/; do
+OUT=${OUT:-/verif/seeded/matrix.json}; echo "{" > "$OUT"; first=1
+# SEEDS=<glob> restricts the run (e.g. SEEDS='*-r6s*' OUT=/tmp/m6.json), tools/merge_matrix.py folds the result into matrix.json
+for d in /verif/seeded/${SEEDS:-*}/; do
   id=$(basename "$d"); [ -f "$d/patch.diff" ] || continue
   git -C "$W" apply "$d/patch.diff" || { echo "APPLY FAILED $id"; continue; }
   hits=""
   for p in C01 C02 C03 C04 C05 C06 C07 C08 C09 C10 C11 C12 C13 C14 C15 C16 C17 C18; do
-    o=$(/verif/bin/cachelint -repo "$W" -verif "$SCR" -prop $p 2>&1); rc=$?
+    o=$(${CL:-/verif/bin/cachelint} -repo "$W" -verif "$SCR" -prop $p 2>&1); rc=$?
     if [ $rc -eq 1 ]; then keys=$(echo "$o" | grep '^  violated' | sed 's/^  violated \([^ ]*\) .*/\1/' | sort -u | tr '\n' ',' | sed 's/,$//'); hits="$hits\"$p\":\"$keys\","; 
     elif [ $rc -ne 0 ]; then hits="$hits\"$p\":\"BROKEN(exit $rc)\","; fi
   done
